@@ -1,6 +1,7 @@
 import TpmProofs.ShapeMsg
 import TpmProofs.Props.C14E
 import TpmProofs.Props.C14W
+import TpmProofs.Props.C14R
 import TpmProofs.MsgPump
 import TpmProofs.Props.C04
 import TpmProofs.Props.C16
@@ -87,6 +88,15 @@ theorem c14_decoder_total (abort : Bool) (top : Top) (htop : ∀ t, top = .ty t 
     ∃ rows, prettyRows tableEnv (streamOf abort (marshalRun abort Generated.msgTables top x)) = .ok rows :=
   c14_total_b tableEnv _ (decoder_shaped tableEnv abort Generated.msgTables c14_shape_tables.1 top
     (fun t ht => List.all_eq_true.mp c14_shape_tables.2 t (htop t ht)) x)
+
+/-- **C14, rows ↔ events for the decoder's streams**: for every layout, either mode and EVERY byte string, the printer's rows are
+the rendering of the blocks of the decoded stream (`C14R`): one row per event shown on its own, one row per byte buffer holding
+all its bytes, one info row per warning, in event order -/
+theorem c14_decoder_rows (abort : Bool) (top : Top) (htop : ∀ t, top = .ty t → t ∈ Generated.allTypes) (x : List Byte) :
+    prettyRows tableEnv (streamOf abort (marshalRun abort Generated.msgTables top x)) =
+      .ok (render tableEnv 0 (blocksOf (streamOf abort (marshalRun abort Generated.msgTables top x)))) := by
+  obtain ⟨rows, h⟩ := c14_decoder_total abort top htop x
+  rw [h, c14_rows_are_blocks _ _ _ h]
 
 /-! ### the hex column is the input -/
 
